@@ -138,8 +138,9 @@ type tScenario struct {
 	TNS   int      `json:"tns"`    // namespace of the template (0 = ClusterObjectTemplate)
 	Tmpl  *tTmpl   `json:"tmpl"`   // initial template object (nil = absent)
 	Store []tObj   `json:"store"`
-	Watch [][2]int `json:"watch"` // pre-existing cache owner entries (kind, owner)
+	Watch [][2]int `json:"watch"` // pre-existing cache owner entries (kind, owner); owner 1 the template, 2 another template of its kind, 3 an owner of another kind
 	Env   int      `json:"env"`
+	Desc  bool     `json:"desc"` // order in which the enqueue handler sees the owners of a kind: descending by (kind, uid)
 	Hs    bool     `json:"hs"`  // the environment handed to the sink has a HyperShift section
 	Hcs   []int    `json:"hcs"` // namespaces a HostedCluster object maps to
 	Steps []tStep  `json:"steps"`
@@ -1004,14 +1005,46 @@ func (h *tHarness) ownerObject(owner int) client.Object {
 	u := &unstructured.Unstructured{}
 	u.SetGroupVersionKind(h.tmplGVK())
 	u.SetNamespace(tNsName(h.tns))
-	if owner == 1 {
+	switch owner {
+	case 1:
 		u.SetName(tTmplName)
 		u.SetUID(tMeUID)
-	} else {
+	case 3:
+		// an owner of ANOTHER kind watching through the same (shared) dynamic cache: the cluster-scoped variant for a
+		// namespaced template and vice versa
+		if h.tns == 0 {
+			u.SetGroupVersionKind(corev1alpha1.GroupVersion.WithKind("ObjectTemplate"))
+			u.SetNamespace(tNsName(1))
+		} else {
+			u.SetGroupVersionKind(corev1alpha1.GroupVersion.WithKind("ClusterObjectTemplate"))
+			u.SetNamespace("")
+		}
+		u.SetName("foreign")
+		u.SetUID("foreign")
+	default:
 		u.SetName(tOtherName)
 		u.SetUID(tOtherUID)
 	}
 	return u
+}
+
+// tOrderedOwners hands the cache's owner references to the enqueue handler in a scripted order (the cache itself
+// returns them in Go map order): ascending or descending by (kind, uid).
+type tOrderedOwners struct {
+	cache *dynamiccache.Cache
+	desc  bool
+}
+
+func (o *tOrderedOwners) OwnersForGKV(gvk schema.GroupVersionKind) []dynamiccache.OwnerReference {
+	refs := o.cache.OwnersForGKV(gvk)
+	sort.Slice(refs, func(i, j int) bool {
+		a, b := refs[i].Kind+"/"+string(refs[i].UID), refs[j].Kind+"/"+string(refs[j].UID)
+		if o.desc {
+			return a > b
+		}
+		return a < b
+	})
+	return refs
 }
 
 func (h *tHarness) objKey(k [3]int) storeKey {
@@ -1214,8 +1247,11 @@ func (h *tHarness) snapshot() tSnap {
 				continue
 			}
 			id := 2
-			if string(o.UID) == tMeUID {
+			switch string(o.UID) {
+			case tMeUID:
 				id = 1
+			case "foreign":
+				id = 3
 			}
 			sn.Watch = append(sn.Watch, [2]int{kind, id})
 		}
@@ -1348,7 +1384,7 @@ func init() {
 			return nil, err
 		}
 		src := h.cache.Source(
-			dynamiccache.NewEnqueueWatchingObjects(h.cache, typed, h.scheme),
+			dynamiccache.NewEnqueueWatchingObjects(&tOrderedOwners{cache: h.cache, desc: sc.Desc}, typed, h.scheme),
 			predicate.NewPredicateFuncs(func(client.Object) bool { return true }))
 		if err := src.Start(ctx, h.queue); err != nil {
 			return nil, err
